@@ -49,6 +49,8 @@ pub enum Kind {
     /// cw1-subkeys AllAllowances; pattern of expiring entries and the block of the query
     Cw1Allowances(ExpPattern, At),
     Cw1Permissions,
+    /// AllPermissions where some permission holders are also admins of the proxy
+    Cw1PermissionsAdmins,
     FixedProposals { reverse: bool },
     FixedVotes,
     FixedVoters,
@@ -71,6 +73,9 @@ pub enum ExpPattern {
     Tail,
     /// every entry expires at height H0+5
     All,
+    /// AtTime expiries around a block time with a sub-second part (T0+50.5 s): earlier in the same
+    /// second, exactly at the block time, later in the same second, in later seconds
+    SubSecond,
 }
 
 /// block at which the queries run
@@ -82,6 +87,8 @@ pub enum At {
     Mid,
     /// (H0+12, T0+60): all expiries reached
     After,
+    /// (H0+3, T0+50.5 s): a block time with a non-zero sub-second part
+    SubSecond,
 }
 
 pub struct Listing {
@@ -130,6 +137,8 @@ pub fn listings() -> Vec<Listing> {
         l("cw1-subkeys/AllAllowances[head-half-expired]", Cw1Allowances(ExpPattern::Head, At::Mid), "all_allowances", "allowances", Some("spender"), "start_after", false, true, 0),
         l("cw1-subkeys/AllAllowances[tail-half-expired]", Cw1Allowances(ExpPattern::Tail, At::Mid), "all_allowances", "allowances", Some("spender"), "start_after", false, true, 0),
         l("cw1-subkeys/AllAllowances[every-entry-expired]", Cw1Allowances(ExpPattern::All, At::Mid), "all_allowances", "allowances", Some("spender"), "start_after", false, true, 0),
+        l("cw1-subkeys/AllAllowances[time-expiries-within-the-block-second]", Cw1Allowances(ExpPattern::SubSecond, At::SubSecond), "all_allowances", "allowances", Some("spender"), "start_after", false, true, 0),
+        l("cw1-subkeys/AllPermissions[holders-also-admins]", Cw1PermissionsAdmins, "all_permissions", "permissions", Some("spender"), "start_after", false, false, 0),
         l("cw1-subkeys/AllPermissions", Cw1Permissions, "all_permissions", "permissions", Some("spender"), "start_after", false, false, 0),
         l("cw3-fixed-multisig/ListProposals", FixedProposals { reverse: false }, "list_proposals", "proposals", Some("id"), "start_after", false, false, 0),
         l("cw3-fixed-multisig/ReverseProposals", FixedProposals { reverse: true }, "reverse_proposals", "proposals", Some("id"), "start_before", true, false, 0),
@@ -318,7 +327,8 @@ impl Listing {
             Kind::Cw20Migrated { by_spender } => cw20_migrated(n, by_spender),
             Kind::Cw20Revoked { by_spender } => cw20_revoked(n, by_spender),
             Kind::Cw1Allowances(p, at) => cw1_allowances(n, p, at),
-            Kind::Cw1Permissions => cw1_permissions(n),
+            Kind::Cw1Permissions => cw1_permissions(n, false),
+            Kind::Cw1PermissionsAdmins => cw1_permissions(n, true),
             Kind::FixedProposals { reverse } => proposals(n, false, reverse),
             Kind::FlexProposals { reverse } => proposals(n, true, reverse),
             Kind::FixedVotes => votes(n, false),
@@ -677,9 +687,11 @@ fn cw20_revoked(n: usize, by_spender: bool) -> Result<Built, String> {
     Ok(b.done(c, args, expected, stored))
 }
 
-fn cw1_instantiate(b: &mut B, c: &str) -> Result<String, String> {
+fn cw1_instantiate(b: &mut B, c: &str, more_admins: &[String]) -> Result<String, String> {
     let admin = a("admin");
-    b.inst(vt_cw1(), c, &admin, json!({"admins": [admin], "mutable": true}))?;
+    let mut admins = vec![admin.clone()];
+    admins.extend(more_admins.iter().cloned());
+    b.inst(vt_cw1(), c, &admin, json!({"admins": admins, "mutable": true}))?;
     Ok(admin)
 }
 
@@ -691,50 +703,63 @@ fn perm_bits(x: usize) -> Value {
 fn cw1_allowances(n: usize, pat: ExpPattern, at: At) -> Result<Built, String> {
     let mut b = B::new();
     let c = a("contract-cw1");
-    let admin = cw1_instantiate(&mut b, &c)?;
+    let admin = cw1_instantiate(&mut b, &c, &[])?;
     let sorted = sorted_users(n);
     // expiry by position in key order, so that runs of expired entries are controlled
     #[derive(Clone, Copy, PartialEq)]
     enum E {
         Never,
-        Height,
-        Time,
+        Height(u64),
+        /// nanoseconds since the epoch
+        TimeNs(u128),
     }
+    const S: u128 = 1_000_000_000;
+    let hexp = E::Height(H0 + 5);
     let mut exp = vec![E::Never; n];
     for (p, (_, i)) in sorted.iter().enumerate() {
         exp[*i] = match pat {
             ExpPattern::Mix => {
                 if p % 4 == 1 || p % 4 == 2 {
-                    E::Height
+                    hexp
                 } else if p % 5 == 3 {
-                    E::Time
+                    E::TimeNs((T0 + 50) as u128 * S)
                 } else {
                     E::Never
                 }
             }
             ExpPattern::Head => {
                 if p < (n + 1) / 2 {
-                    E::Height
+                    hexp
                 } else {
                     E::Never
                 }
             }
             ExpPattern::Tail => {
                 if p >= n / 2 {
-                    E::Height
+                    hexp
                 } else {
                     E::Never
                 }
             }
-            ExpPattern::All => E::Height,
+            ExpPattern::All => hexp,
+            // the query block is at T0+50.5 s: expiries earlier in that second (expired), exactly at
+            // the block time (expired), later in that second (live), in later seconds (live)
+            ExpPattern::SubSecond => match p % 6 {
+                0 => E::TimeNs((T0 + 50) as u128 * S + 100_000_000),
+                1 => E::TimeNs((T0 + 50) as u128 * S + 900_000_000),
+                2 => E::Never,
+                3 => E::TimeNs((T0 + 50) as u128 * S + 500_000_000),
+                4 => E::TimeNs((T0 + 51) as u128 * S),
+                _ => E::TimeNs((T0 + 50) as u128 * S + 500_000_001),
+            },
         };
     }
     // created in index order (not key order)
     for i in 0..n {
         let e = match exp[i] {
             E::Never => Value::Null,
-            E::Height => json!({"at_height": H0 + 5}),
-            E::Time => json!({"at_time": nanos(T0 + 50)}),
+            E::Height(h) => json!({"at_height": h}),
+            E::TimeNs(t) => json!({"at_time": t.to_string()}),
         };
         b.exec(
             &admin,
@@ -751,15 +776,17 @@ fn cw1_allowances(n: usize, pat: ExpPattern, at: At) -> Result<Built, String> {
         At::Before => {}
         At::Mid => b.w.advance(5, 25),
         At::After => b.w.advance(12, 60),
+        At::SubSecond => b.w.advance_nanos(3, 50_500_000_000),
     }
+    let now_ns = b.w.time_s as u128 * S + b.w.time_ns as u128;
+    let height = b.w.height;
     let mut expected = vec![];
     for (addr, i) in &sorted {
-        let current = match (exp[*i], at) {
-            (E::Never, _) => true,
-            (_, At::Before) => true,
-            (E::Height, _) => false,
-            (E::Time, At::Mid) => true,
-            (E::Time, At::After) => false,
+        // cw_utils::Expiration::is_expired: block.height >= h / block.time >= t
+        let current = match exp[*i] {
+            E::Never => true,
+            E::Height(h) => height < h,
+            E::TimeNs(t) => now_ns < t,
         };
         let r = b.point(&c, json!({"allowance": {"spender": addr}}))?;
         let has = r["balance"].as_array().map(|x| !x.is_empty()).unwrap_or(false);
@@ -777,14 +804,37 @@ fn cw1_allowances(n: usize, pat: ExpPattern, at: At) -> Result<Built, String> {
     Ok(b.done(c, Map::new(), expected, stored))
 }
 
-fn cw1_permissions(n: usize) -> Result<Built, String> {
+/// n permission holders. With `admins`: runs of holders at the start, middle and end of the key order
+/// are also admins of the proxy - alternately made admin before their permissions were set, and
+/// promoted afterwards with UpdateAdmins. Their stored permissions still answer the point query.
+fn cw1_permissions(n: usize, admins: bool) -> Result<Built, String> {
     let mut b = B::new();
     let c = a("contract-cw1");
-    let admin = cw1_instantiate(&mut b, &c)?;
+    let sorted = sorted_users(n);
+    let also: Vec<String> = if admins {
+        let pos = if n == 1 { vec![0] } else { emptied_positions(n) };
+        pos.iter().map(|p| sorted[*p].0.clone()).collect()
+    } else {
+        vec![]
+    };
+    let before: Vec<String> = also.iter().step_by(2).cloned().collect();
+    let admin = cw1_instantiate(&mut b, &c, &before)?;
     for i in 0..n {
         b.exec(&admin, &c, json!({"set_permissions": {"spender": user(i), "permissions": perm_bits(i % 15 + 1)}}))?;
     }
+    if admins {
+        let mut all = vec![admin.clone()];
+        all.extend(also.iter().cloned());
+        b.exec(&admin, &c, json!({"update_admins": {"admins": all}}))?;
+        let r = b.point(&c, json!({"admin_list": {}}))?;
+        if r["admins"].as_array().map(|x| x.len()) != Some(also.len() + 1) {
+            return Err(machinery("admin_list", "admins", &r));
+        }
+    }
     for i in 0..n.min(3) {
+        if also.contains(&user(i)) {
+            continue;
+        }
         b.exec(
             &admin,
             &c,
@@ -797,10 +847,10 @@ fn cw1_permissions(n: usize) -> Result<Built, String> {
         json!({"increase_allowance": {"spender": a("noise-spender"), "amount": {"denom": "tok", "amount": "5"}, "expires": null}}),
     )?;
     let mut expected = vec![];
-    for (addr, i) in sorted_users(n) {
+    for (addr, i) in &sorted {
         let r = b.point(&c, json!({"permissions": {"spender": addr}}))?;
         if r != perm_bits(i % 15 + 1) {
-            return Err(machinery("permissions", &addr, &r));
+            return Err(machinery("permissions", addr, &r));
         }
         expected.push((Key::S(addr.clone()), json!({"spender": addr, "permissions": r})));
     }
